@@ -9,7 +9,8 @@
 (*  "ast"   same, but the expression was built through the combinator API    *)
 (*          (Symbol, SymbolSet, +, |, Kleene, optional) from the tree r.ast. *)
 (*  "scan"  regex.scan(compile(r.re), r.text): r.out = [fin, toks]           *)
-(*          fin = "done" | "exc:<class>" | "overrun", toks = texts yielded   *)
+(*          fin = "done" | "exc=<class>" | "overrun" | "compile:exc=<class>" *)
+(*          toks = the texts yielded before that                             *)
 (*  "lexer" make_scanner(r.rules).scan(r.text): toks = [n |-> name, t |-> text] *)
 EXTENDS Regex, SequencesExt, Json, IOUtils, TLC
 Recs == JsonDeserialize(IOEnv.TRACE_FILE)
@@ -25,7 +26,7 @@ Next == PickChunk \/ PickRec
 RECURSIVE FromJson(_)
 FromJson(j) ==
     CASE j.op = "sym"   -> Sym(j.c)
-      [] j.op = "any"   -> Any
+      [] j.op = "any"   -> AnyChar
       [] j.op = "eps"   -> Eps
       [] j.op = "class" -> Cls(ToSet(j.cs))
       [] j.op = "cat"   -> Cat(FromJson(j.l), FromJson(j.r))
